@@ -352,6 +352,9 @@ func (w *World) storeEvents(addrs ...string) func(ssa.Instruction) string {
 		if !ok {
 			return ""
 		}
+		if _, isField := st.Addr.(*ssa.FieldAddr); !isField {
+			return "" // spilled result slots print as their value
+		}
 		a := w.Canon(st.Addr)
 		if !set[a] {
 			return ""
